@@ -210,6 +210,9 @@ Qed.
 Lemma facts_hold : facts_ok fn_names shape_read shape_write raw_io io_sites ctx_inits = true.
 Proof. vm_compute. reflexivity. Qed.
 
+Lemma facts_callers : callers_ok fn_names ctx_inits caller_sites = true.
+Proof. vm_compute. reflexivity. Qed.
+
 Lemma facts_shapes : shape_good shape_read = true /\ shape_good shape_write = true.
 Proof.
   pose proof facts_hold as H. unfold facts_ok in H.
